@@ -357,8 +357,8 @@ func importedConst(pk *types.Package, path, name string) (*types.Const, bool) {
 
 func c01(r *core.Run) {
 	p := r.P
-	r.Explanation = "Decides on every path: the rejection probability handed to the random draw is max(0,(total-5-k*accepts)/(total+1)) with k written once as 1.5, accepts/total summed from Bucket.Sum/Bucket.Count of a 10 s window that includes the current bucket; a non-nil admission error is returned only when the draw succeeded; in the accounting function the request runs only after a nil admission result, the rejected path calls neither the request nor a mark and hands the admission error to the fallback (if any), every normal path after the request records exactly one outcome (success iff the acceptable-predicate applied to the request's error is true), the deferred recover closure is registered before the request, records exactly one failure and re-panics with the recovered value, and records nothing when there was no panic; success adds 1, failure adds 0 and outcomes are recorded only by the accounting functions and the promises; Accept/Reject of both promise types delegate to the like-named operation; Allow hands out a promise only when admitted; the logging wrapper, the Do* family and the named registry pass request, fallback and predicate through unchanged; the four benign-outcome predicates (gRPC codes, sql, redis, HTTP status) compute exactly the declared finite sets and every breaker call of the sql/redis/gRPC integrations passes its package's predicate; registry map and error window are touched only under their locks; a breaker is inserted into the registry only on the not-found outcome of a lookup of the same name made under the write lock that is still held (one breaker per name for all goroutines), and what the registry returns is the breaker found or inserted under the name."
-	r.NotDecided = "ageing of outcomes out of the 10 s window and the limit 'probability approaching 1' (functions of the clock and of values; the RollingWindow arithmetic is not decided here nor under C09); behaviour under concurrent histories beyond lock discipline and the atomic check-then-insert of the registry (an inserting helper that itself releases and re-takes the lock before storing is not looked into; functions that overwrite an entry without lookup and without handing a breaker back, such as NoBreakerFor, are taken as deliberate replacement); that the random source is uniform."
+	r.Explanation = "Decides on every path: the rejection probability handed to the random draw is max(0,(total-5-k*accepts)/(total+1)) with k written once as 1.5, accepts/total summed from Bucket.Sum/Bucket.Count of a 10 s window that includes the current bucket; a non-nil admission error is returned only when the draw succeeded; in the accounting function the request runs only after a nil admission result, the rejected path calls neither the request nor a mark and hands the admission error to the fallback (if any), every normal path after the request records exactly one outcome (success iff the acceptable-predicate applied to the request's error is true), the deferred accounting closure is registered before the request on the admitted path only, tells a request that did not return (any panic, also panic(nil), or Goexit) from one that returned by a completion flag that is set only after the request returned and on every normal path – never by recover()'s value –, records exactly one failure in the first case and nothing in the second, and no deferred closure stops the panic (none returns normally after recover() on the 'not returned' arm); success adds 1, failure adds 0 and outcomes are recorded only by the accounting functions and the promises; Accept/Reject of both promise types delegate to the like-named operation; Allow hands out a promise only when admitted; the logging wrapper, the Do* family and the named registry pass request, fallback and predicate through unchanged; BreakerHandler reports Accept only when the next handler returned normally (same completion-flag discipline) with a status below 500 and Reject otherwise, exactly once; the four benign-outcome predicates (gRPC codes, sql, redis, HTTP status) compute exactly the declared finite sets and every breaker call of the sql/redis/gRPC integrations passes its package's predicate; registry map and error window are touched only under their locks; a breaker is inserted into the registry only on the not-found outcome of a lookup of the same name made under the write lock that is still held (one breaker per name for all goroutines), and what the registry returns is the breaker found or inserted under the name."
+	r.NotDecided = "a panic raised by the accounting itself between a recorded outcome and the assignment of the completion flag (the window's Add does not panic); recover() called in a helper of a deferred closure rather than in the closure (only the closures deferred by the accounting function / the HTTP handler closure are inspected); a completion signal that is not a bool local captured by reference (reported as a violation, not accepted); ageing of outcomes out of the 10 s window and the limit 'probability approaching 1' (functions of the clock and of values; the RollingWindow arithmetic is not decided here nor under C09); behaviour under concurrent histories beyond lock discipline and the atomic check-then-insert of the registry (an inserting helper that itself releases and re-takes the lock before storing is not looked into; functions that overwrite an entry without lookup and without handing a breaker back, such as NoBreakerFor, are taken as deliberate replacement); that the random source is uniform."
 	c := newC01ctx(p)
 	need := func(o *core.O) bool {
 		for _, pr := range c.problems {
@@ -670,59 +670,71 @@ func c01(r *core.Run) {
 			}
 		}
 	})
-	r.Check("D2/K1/panic-recorded-and-reraised", "a deferred closure registered before the request recovers; on recover()!=nil it records exactly one failure and re-panics with the recovered value; otherwise it records nothing", func(o *core.O) {
+	r.Check("D2/K1/panic-recorded-and-reraised", "on every path on which the protected function did not return normally – any panic, also panic(nil), for which recover() answers nil under this module's go directive, and runtime.Goexit – exactly one failure is recorded and the panic is not swallowed; when it returned normally the deferred closure records nothing: one deferred closure, registered before the request on the admitted path only, records exactly one failure on the 'not returned' arm of a completion flag (a bool local it captures by reference, written by constants only, given its 'returned' value only after the request returned and on every path from the request to a normal return) and nothing on the other arm; no deferred closure returns normally after calling recover() while the flag says 'not returned', and whatever it panics with is the recovered value [clause 'every admitted call records exactly one outcome … failure on a panic, which is re-raised to the caller': a closure that decides from recover() != nil records nothing for panic(nil) and turns it into a normal nil return; a flag set early misses the panic; a flag not set on a normal path books a second outcome]", func(o *core.O) {
 		if !d2(o) {
 			return
 		}
 		f := c.doReq
-		recNil := core.Cmp(token.EQL, a1IsRecoverCall, core.IsNil)
-		var rec []*ssa.Function
+		var rec, marking []*ssa.Function
 		for _, a := range deferred {
-			if len(core.Instrs(a, func(in ssa.Instruction) bool { v, ok := in.(ssa.Value); return ok && a1IsRecoverCall(v) })) > 0 {
+			if len(core.Instrs(a, c01IsRecoverInstr)) > 0 {
 				rec = append(rec, a)
 			}
-		}
-		o.Site(len(rec), core.FuncName(f))
-		if len(rec) != 1 {
-			o.Fail(p.Pos(f.Pos()), "expected exactly one deferred recovering closure, found %d (a panic of the protected function would not be recorded)", len(rec))
-			return
-		}
-		g := rec[0]
-		r.Fn(core.FuncName(g))
-		if w := core.Precedes(f, deferOfClosure(g), isReq); w != nil {
-			o.Fail(p.InstrPos(w), "the protected function can run before the recovering closure is deferred")
-		}
-		if w := core.Requires(f, deferOfClosure(g), acceptNil); w != nil {
-			o.Fail(p.InstrPos(w), "the recovering closure is deferred on the rejected path too (a panicking fallback would be recorded as a failure)")
-		}
-		none, arm := core.EdgesOf(g, recNil)
-		if len(arm) == 0 {
-			o.Fail(p.Pos(g.Pos()), "the deferred closure never tests recover()")
-			return
-		}
-		from := headsOf(arm)
-		if w, ok := core.Reach(core.Q{From: from, Target: core.IsExit, Blocked: c.isFailure}); ok {
-			o.Fail(p.InstrPos(w), "recovered panic: a path ends without recording a failure")
-		}
-		if w := core.AtMostOnce(g, c.isMark); w != nil {
-			o.Fail(p.InstrPos(w), "recovered panic: two outcomes recorded")
-		}
-		if w, ok := core.Reach(core.Q{From: from, Target: core.IsReturn}); ok {
-			o.Fail(p.InstrPos(w), "recovered panic is swallowed: the closure returns instead of re-panicking")
-		}
-		for _, in := range core.Instrs(g, func(in ssa.Instruction) bool { _, ok := in.(*ssa.Panic); return ok }) {
-			if !a1IsRecoverCall(core.Forward(in.(*ssa.Panic).X)) {
-				o.Fail(p.InstrPos(in), "the closure panics with %s, not with the recovered value", core.Describe(in.(*ssa.Panic).X))
+			if len(core.Instrs(a, c.isMark)) > 0 {
+				marking = append(marking, a)
 			}
 		}
-		if w := core.Requires(g, c.isMark, core.Not(recNil)); w != nil {
-			o.Fail(p.InstrPos(w), "the deferred closure records an outcome although nothing panicked (second outcome for a normal call)")
+		o.Site(len(marking), core.FuncName(f))
+		if len(marking) != 1 {
+			o.Fail(p.Pos(f.Pos()), "expected exactly one deferred closure that records the failure of a call that did not return, found %d (a panic of the protected function would not be recorded, or recorded twice)", len(marking))
+			return
 		}
-		if w := core.ReachableFromEdges(none, c.isMark, nil); w != nil {
-			o.Fail(p.InstrPos(w), "the deferred closure records an outcome on its recover()==nil arm")
+		g := marking[0]
+		r.Fn(core.FuncName(g))
+		if w := core.Precedes(f, deferOfClosure(g), isReq); w != nil {
+			o.Fail(p.InstrPos(w), "the protected function can run before the accounting closure is deferred")
+		}
+		if w := core.Requires(f, deferOfClosure(g), acceptNil); w != nil {
+			o.Fail(p.InstrPos(w), "the accounting closure is deferred on the rejected path too (a panicking fallback would be recorded as a failure)")
+		}
+		if w := core.AtMostOnce(g, c.isMark); w != nil {
+			o.Fail(p.InstrPos(w), "call that did not return: two outcomes recorded")
 		}
 		for _, in := range core.Instrs(g, core.Or(c.isSuccess, c.isSplit)) {
 			o.Fail(p.InstrPos(in), "the deferred closure records a success")
+		}
+		fl := c01PickFlag(g, c01CompletionFlags(f, g, isReq))
+		var returned []core.Edge
+		if fl == nil {
+			if len(core.Instrs(g, c01IsRecoverInstr)) > 0 {
+				o.Fail(p.Pos(g.Pos()), "the deferred closure decides from recover()'s value whether the protected function panicked: recover() answers nil for panic(nil) (go directive below 1.21) and for runtime.Goexit, so such a call records no outcome and panic(nil) is turned into a normal return")
+			} else {
+				o.Fail(p.Pos(g.Pos()), "the deferred closure does not branch on a completion flag (a bool local captured by reference and set once the protected function returned): it cannot tell a call that returned from one that panicked")
+			}
+		} else {
+			c01ReportFlagIssues(o, p, fl)
+			var notReturned []core.Edge
+			returned, notReturned = core.EdgesOf(g, fl.returned())
+			if w, ok := core.Reach(core.Q{From: headsOf(notReturned), Target: core.IsExit, Blocked: c.isFailure}); ok {
+				o.Fail(p.InstrPos(w), "call that did not return: a path of the deferred closure ends without recording a failure")
+			}
+			if w := core.Requires(g, c.isMark, core.Not(fl.returned())); w != nil {
+				o.Fail(p.InstrPos(w), "the deferred closure records an outcome although the protected function returned normally (second outcome for a normal call)")
+			}
+			if w := core.ReachableFromEdges(returned, c.isMark, nil); w != nil {
+				o.Fail(p.InstrPos(w), "the deferred closure records an outcome on the arm on which the protected function returned normally")
+			}
+		}
+		// the panic is not swallowed
+		for _, a := range rec {
+			cut := returned
+			if a != g {
+				cut = nil
+			}
+			if w := c01Swallows(a, cut); w != nil {
+				o.Fail(p.InstrPos(w), "the deferred closure %s returns normally after calling recover(): the panic of the protected function is swallowed (always for panic(nil), whose recovered value is nil) and the caller sees a normal return", core.FuncName(a))
+			}
+			c01Repanics(o, p, a)
 		}
 	})
 
@@ -1500,7 +1512,7 @@ func c01(r *core.Run) {
 			o.Fail("rpc/internal", "found %d breaker-protected interceptors, expected ≥ 3", n)
 		}
 	})
-	r.Check("D5/K2/http-status-below-500", "BreakerHandler: the handler runs only after a successful Allow; the deferred closure (registered before the handler runs) calls exactly one of Accept/Reject, Accept iff the recorded status < 500", func(o *core.O) {
+	r.Check("D5/K2/http-status-below-500", "BreakerHandler: the handler runs only after a successful Allow; the deferred closure (registered before the handler runs) calls exactly one of Accept/Reject; Accept is called only when the handler returned normally – read off a completion flag (a bool local captured by reference, written by constants only, given its 'returned' value only after ServeHTTP returned and on every path from it to a normal return), not off the recorded status, which is 0 for a handler that panicked before writing – and the recorded status is < 500; Reject only when the handler did not return or the status is ≥ 500; the closure does not return normally after calling recover() while the flag says 'not returned' [clauses 'failure on an unacceptable error or on a panic' for the Allow+Accept/Reject integration and 'HTTP status below 500 never moves a breaker towards open': a panicking route booked as success is never cut off]", func(o *core.O) {
 		f := p.Func("api/handler", "", "BreakerHandler")
 		if !o.Need(f != nil, "api/handler.BreakerHandler") {
 			return
@@ -1557,8 +1569,26 @@ func c01(r *core.Run) {
 		if w := core.Requires(d, isAccept, below); w != nil {
 			o.Fail(p.InstrPos(w), "Accept is reachable for a status ≥ 500")
 		}
-		if w := core.Requires(d, isReject, core.Not(below)); w != nil {
-			o.Fail(p.InstrPos(w), "Reject is reachable for a status < 500 (a benign response moves the breaker towards open)")
+		fl := c01PickFlag(d, c01CompletionFlags(h, d, isServe))
+		if fl == nil {
+			o.Fail(p.Pos(d.Pos()), "the reporting closure does not branch on a completion flag (a bool local captured by reference and set once the next handler returned): a handler that panics before writing a status leaves code 0, which is below 500, and the panic is booked as a success")
+			if w := core.Requires(d, isReject, core.Not(below)); w != nil {
+				o.Fail(p.InstrPos(w), "Reject is reachable for a status < 500 (a benign response moves the breaker towards open)")
+			}
+		} else {
+			c01ReportFlagIssues(o, p, fl)
+			ret := fl.returned()
+			if w := core.Requires(d, isAccept, ret); w != nil {
+				o.Fail(p.InstrPos(w), "Accept is reachable although the next handler did not return normally (a panic is booked as a success)")
+			}
+			if w := core.Requires(d, isReject, core.Not(ret), core.Not(below)); w != nil {
+				o.Fail(p.InstrPos(w), "Reject is reachable for a handler that returned with a status < 500 (a benign response moves the breaker towards open)")
+			}
+			returned, _ := core.EdgesOf(d, ret)
+			if w := c01Swallows(d, returned); w != nil {
+				o.Fail(p.InstrPos(w), "the reporting closure returns normally after calling recover(): the handler's panic is swallowed")
+			}
+			c01Repanics(o, p, d)
 		}
 		// the code compared is the one the wrapped writer recorded for this request
 		wh := p.Func("api/internal/response", "WithCodeResponseWriter", "WriteHeader")
